@@ -20,15 +20,20 @@
 //!           target has provably received all of it (l_end 1; 0 = the data did not arrive while the connection was open)
 //!         9 local writes and half-closes; the target reads to EOF, then answers and KEEPS the connection open until the
 //!           local client has provably received the whole answer (t_end 1; 0 = it did not arrive while open)
+//!        10 the local client sends its request (if the entry has one) and hangs up a few milliseconds later, with the
+//!           stream request still on its way (the client reaches the server through a relay adding 15 ms); nothing is
+//!           observed of this connection itself: the other connections of the case must not notice
 //!   every local connection first sends a 4-byte tag (part of the payload) naming its target script
 //!   result per connection: l_len l_ok l_end t_len t_ok t_end
 //!     (len = bytes received, ok = they are exactly the peer's byte stream so far, end: 1 clean EOF,
 //!      2 error/reset, 0 still open after the timeout)
 //! slow UDP:  1 3 entry n gap_ms   (see `slow_udp`)
+//! UDP burst: 1 4 entry n          (see `burst_udp`)
 //! UDP case:  1 2 entry shared nclients (n size_1..size_n)*
 //!   entry 0 UDP remote, 1 SOCKS5 UDP association (shared 1: one association used by all clients;
 //!   variant 0/1 IPv4 / domain-name header, 2/3 the same with each client alternating between two targets,
-//!   4 the target on the IPv6 loopback: IPv6 address in the SOCKS5 header / the UDP remote pointing at `[::1]`)
+//!   4 the target on the IPv6 loopback: IPv6 address in the SOCKS5 header / the UDP remote pointing at `[::1]`;
+//!   + 8: the clients start 200 ms one after the other instead of all at once)
 //!   TCP variant + 4 (entries 0, 2, 5): the target on the IPv6 loopback (remote `[::1]:port`, SOCKS5 ATYP 4, `CONNECT [::1]:port`)
 //!   result per client: mine foreign from_ok header_ok target_got
 use crate::util::*;
@@ -337,6 +342,97 @@ async fn slow_udp(cx: SlowCtx, entry: u64, n: u64, gap_ms: u64, tag: u32) -> Vec
     vec![mine, foreign, from_ok, hdr_ok, got]
 }
 
+/// UDP case kind 4: the target answers one datagram with a burst of `n` replies sent back to back (the tunnel may drop
+/// some of them: its reply queue is bounded); once the burst is over the exchange must work as before: the next datagram
+/// reaches the target and its reply comes back.  result: late_reply foreign from_ok header_ok late_seen_by_target
+async fn burst_udp(cx: SlowCtx, entry: u64, n: u64, tag: u32) -> Vec<u64> {
+    let Ok(sock) = UdpSocket::bind("127.0.0.1:0").await else { return vec![999_997] };
+    let mut control = None;
+    let dest: SocketAddr = if entry == 1 {
+        let Ok(mut s) = TcpStream::connect(("127.0.0.1", cx.socks_port)).await else { return vec![999_997] };
+        let mut b = [0u8; 2];
+        let mut rep = [0u8; 10];
+        if s.write_all(&[5, 1, 0]).await.is_err()
+            || s.read_exact(&mut b).await.is_err()
+            || s.write_all(&[5, 3, 0, 1, 0, 0, 0, 0, 0, 0]).await.is_err()
+            || s.read_exact(&mut rep).await.is_err()
+            || rep[1] != 0
+            || rep[3] != 1
+        {
+            return vec![999_997];
+        }
+        control = Some(s);
+        ([rep[4], rep[5], rep[6], rep[7]], u16::from_be_bytes([rep[8], rep[9]])).into()
+    } else {
+        ([127, 0, 0, 1], cx.udp_port).into()
+    };
+    let header: Vec<u8> = if entry == 1 {
+        let mut h = vec![0, 0, 0, 1, 127, 0, 0, 1];
+        h.extend(cx.target_udp.to_be_bytes());
+        h
+    } else {
+        vec![]
+    };
+    let (mut foreign, mut from_ok, mut hdr_ok) = (0u64, 1u64, 1u64);
+    let mut buf = vec![0u8; 65536];
+    let mut req = tag.to_be_bytes().to_vec();
+    req.extend(b"BRST");
+    req.extend((n as u16).to_be_bytes());
+    let mut d = header.clone();
+    d.extend(&req);
+    let _ = sock.send_to(&d, dest).await;
+    let strip = |m: &[u8], hdr_ok: &mut u64| -> Option<Vec<u8>> {
+        if entry == 1 {
+            if m.len() < 10 || m[..4] != [0, 0, 0, 1] {
+                *hdr_ok = 0;
+                return None;
+            }
+            Some(m[10..].to_vec())
+        } else {
+            Some(m.to_vec())
+        }
+    };
+    // drain the burst: until nothing has arrived for 300 ms (3 s at most)
+    let t0 = Instant::now();
+    while t0.elapsed() < Duration::from_secs(3) {
+        let Ok(Ok((m, from))) = tokio::time::timeout(Duration::from_millis(300), sock.recv_from(&mut buf)).await else { break };
+        if from != dest {
+            from_ok = 0;
+        }
+        match strip(&buf[..m], &mut hdr_ok) {
+            Some(b) if b.len() == req.len() + 3 && b[0] == b'R' && b[1..=req.len()] == req[..] => {}
+            _ => foreign += 1,
+        }
+    }
+    // the exchange after the burst
+    let mut p = tag.to_be_bytes().to_vec();
+    p.extend(1u16.to_be_bytes());
+    p.extend(stream_bytes(tag, 101, 50));
+    let mut d = header.clone();
+    d.extend(&p);
+    let _ = sock.send_to(&d, dest).await;
+    let mut want = vec![b'R'];
+    want.extend(&p);
+    let mut late = 0u64;
+    let deadline = tokio::time::Instant::now() + Duration::from_secs(2);
+    while let Ok(Ok((m, from))) = tokio::time::timeout_at(deadline, sock.recv_from(&mut buf)).await {
+        if from != dest {
+            from_ok = 0;
+        }
+        match strip(&buf[..m], &mut hdr_ok) {
+            Some(b) if b == want => {
+                late = 1;
+                break;
+            }
+            Some(b) if b.len() == req.len() + 3 && b[0] == b'R' => {} // a straggler of the burst
+            _ => foreign += 1,
+        }
+    }
+    drop(control);
+    let got = *cx.udp_seen.lock().unwrap().get(&tag).unwrap_or(&0);
+    vec![late, foreign, from_ok, hdr_ok, u64::from(got >= 2)]
+}
+
 pub struct World {
     rt: tokio::runtime::Runtime,
     tcp_port: u16,
@@ -403,6 +499,17 @@ impl World {
                     } else {
                         *seen.lock().unwrap().entry(0).or_default() += 1;
                     }
+                    if n >= 10 && &buf[4..8] == b"BRST" {
+                        // a request for a burst of replies (more than the tunnel's reply queue holds), sent back to back
+                        let count = u16::from_be_bytes([buf[8], buf[9]]);
+                        for k in 0..count {
+                            let mut reply = vec![b'R'];
+                            reply.extend_from_slice(&buf[..n]);
+                            reply.extend(k.to_be_bytes());
+                            let _ = tu.send_to(&reply, from).await;
+                        }
+                        continue;
+                    }
                     let mut reply = vec![b'R'];
                     reply.extend_from_slice(&buf[..n]);
                     let _ = tu.send_to(&reply, from).await;
@@ -454,6 +561,48 @@ impl World {
             let sport = sl.local_addr().unwrap().port();
             let state = rusty_penguin_lib::server::State::new().await.expect("state");
             tokio::spawn(rusty_penguin_lib::server::run_listener(sl, None, state));
+            // the client reaches the server through a relay that delays the server-to-client direction by 15 ms (full
+            // throughput, constant latency): requests are in flight for a noticeable time, as over a real network
+            let rl = TcpListener::bind("127.0.0.1:0").await.unwrap();
+            let rport = rl.local_addr().unwrap().port();
+            tokio::spawn(async move {
+                while let Ok((c, _)) = rl.accept().await {
+                    tokio::spawn(async move {
+                        let Ok(srv) = TcpStream::connect(("127.0.0.1", sport)).await else { return };
+                        let _ = c.set_nodelay(true);
+                        let _ = srv.set_nodelay(true);
+                        let (mut cr, mut cw) = c.into_split();
+                        let (mut sr, mut sw) = srv.into_split();
+                        let up = tokio::spawn(async move {
+                            let _ = tokio::io::copy(&mut cr, &mut sw).await;
+                            let _ = sw.shutdown().await;
+                        });
+                        let (tx, mut rx) = tokio::sync::mpsc::unbounded_channel::<(tokio::time::Instant, Vec<u8>)>();
+                        let rd = tokio::spawn(async move {
+                            let mut buf = vec![0u8; 65536];
+                            loop {
+                                match sr.read(&mut buf).await {
+                                    Ok(0) | Err(_) => break,
+                                    Ok(n) => {
+                                        if tx.send((tokio::time::Instant::now() + Duration::from_millis(15), buf[..n].to_vec())).is_err() {
+                                            break;
+                                        }
+                                    }
+                                }
+                            }
+                        });
+                        while let Some((at, data)) = rx.recv().await {
+                            tokio::time::sleep_until(at).await;
+                            if cw.write_all(&data).await.is_err() {
+                                break;
+                            }
+                        }
+                        let _ = cw.shutdown().await;
+                        rd.abort();
+                        up.abort();
+                    });
+                }
+            });
             // the real client
             let tcp_port = free_tcp_port().await;
             let tcp_refused_remote = free_tcp_port().await;
@@ -473,7 +622,7 @@ impl World {
                 remotes.push(format!("127.0.0.1:{}:[::1]:{}/udp", v.udp_port, v.target_udp));
             }
             let args: &'static ClientArgs = Box::leak(Box::new(ClientArgs {
-                server: ServerUrl::from_str(&format!("ws://127.0.0.1:{sport}/ws")).unwrap(),
+                server: ServerUrl::from_str(&format!("ws://127.0.0.1:{rport}/ws")).unwrap(),
                 remote: remotes.iter().map(|r| Remote::from_str(r).unwrap()).collect(),
                 keepalive: penguin_mux::timing::OptionalDuration::NONE,
                 ..Default::default()
@@ -573,10 +722,74 @@ impl World {
         }
     }
 
+    async fn abandon(&self, entry: u64, variant: u64) {
+        let tport = self.target_tcp;
+        match entry {
+            0 => {
+                if let Ok(s) = TcpStream::connect(("127.0.0.1", self.tcp_port)).await {
+                    tokio::time::sleep(Duration::from_millis(3)).await;
+                    drop(s);
+                }
+            }
+            1 => {
+                if let Ok(s) = UnixStream::connect(&self.uds).await {
+                    tokio::time::sleep(Duration::from_millis(3)).await;
+                    drop(s);
+                }
+            }
+            2..=4 => {
+                if let Ok(mut s) = TcpStream::connect(("127.0.0.1", self.socks_port)).await {
+                    let mut req = vec![];
+                    if entry == 2 {
+                        req.extend([5, 1, 0, 5, 1, 0]);
+                        if variant & 1 == 0 {
+                            req.extend([1, 127, 0, 0, 1]);
+                        } else {
+                            req.push(3);
+                            req.push(9);
+                            req.extend(b"localhost");
+                        }
+                        req.extend(tport.to_be_bytes());
+                    } else {
+                        req.extend([4, 1]);
+                        req.extend(tport.to_be_bytes());
+                        if entry == 3 {
+                            req.extend([127, 0, 0, 1]);
+                            req.extend(b"user\0");
+                        } else {
+                            req.extend([0, 0, 0, 1]);
+                            req.extend(b"user\0localhost\0");
+                        }
+                    }
+                    let _ = s.write_all(&req).await;
+                    tokio::time::sleep(Duration::from_millis(3)).await;
+                    drop(s);
+                }
+            }
+            _ => {
+                if let Ok(mut s) = TcpStream::connect(("127.0.0.1", self.http_port)).await {
+                    let req = format!("CONNECT 127.0.0.1:{tport} HTTP/1.1\r\nHost: 127.0.0.1:{tport}\r\n\r\n");
+                    let _ = s.write_all(req.as_bytes()).await;
+                    tokio::time::sleep(Duration::from_millis(3)).await;
+                    drop(s);
+                }
+            }
+        }
+    }
+
     async fn tcp_conn(&self, entry: u64, variant: u64, tag: u32, shape: u64, l_chunks: Vec<usize>, t_chunks: Vec<usize>) -> Vec<u64> {
         let total_l: usize = if shape == 6 { 1 << 21 } else if shape == 7 { 3 << 20 } else { l_chunks.iter().sum() };
         let total_t: usize = if shape == 7 { 0 } else { t_chunks.iter().sum() };
         self.scripts.lock().unwrap().insert(tag, TScript { shape, total_local: total_l, t_chunks: t_chunks.clone() });
+        if shape == 10 {
+            // a local client that gives up at once: it sends its request (if the entry has one) and hangs up a few
+            // milliseconds later, while the stream request is still on its way to the server; some time after the other
+            // connections of the case have started
+            tokio::time::sleep(Duration::from_millis(60 + u64::from(tag % 7) * 9)).await;
+            self.abandon(entry, variant).await;
+            self.scripts.lock().unwrap().remove(&tag);
+            return vec![0, 1, 0, 0, 1, 0];
+        }
         // variant bit 1 (SOCKS and HTTP CONNECT entries): an eager local client, which sends its first payload bytes (the tag)
         // in the same write as the request, before it has read the proxy's reply
         let tagb = tag.to_be_bytes();
@@ -718,8 +931,9 @@ impl World {
         rs.into_iter().flatten().collect()
     }
 
-    async fn udp_client(&self, entry: u64, variant: u64, relay: Option<SocketAddr>, tag: u32, sizes: Vec<usize>) -> Vec<u64> {
+    async fn udp_client(&self, entry: u64, variant: u64, relay: Option<SocketAddr>, tag: u32, sizes: Vec<usize>, start_after: Duration) -> Vec<u64> {
         let sock = UdpSocket::bind("127.0.0.1:0").await.unwrap();
+        tokio::time::sleep(start_after).await;
         // variant 4: the target is on the IPv6 loopback (SOCKS5 header with an IPv6 address / the UDP remote that points there)
         let v6 = if variant == 4 { self.v6 } else { None };
         let dest: SocketAddr = match relay {
@@ -827,7 +1041,9 @@ impl World {
     }
 
     async fn udp_case(&self, c: &[u64], base: u32) -> Vec<u64> {
-        let (entry, shared, variant, ncl) = (c[0], c[1], c[2], c[3] as usize);
+        // variant + 8: staggered start (client k begins 200 ms after client k-1, i.e. after the earlier clients' first
+        // replies have come back) instead of all clients at once
+        let (entry, shared, stagger, variant, ncl) = (c[0], c[1], c[2] & 8 != 0, c[2] & 7, c[3] as usize);
         let mut i = 4;
         let mut specs = vec![];
         for _ in 0..ncl {
@@ -851,7 +1067,7 @@ impl World {
         let mut futs = vec![];
         for (k, sizes) in specs.into_iter().enumerate() {
             let relay = if entry == 1 { Some(relays[if shared == 1 { 0 } else { k }]) } else { None };
-            futs.push(self.udp_client(entry, variant, relay, base + k as u32, sizes));
+            futs.push(self.udp_client(entry, variant, relay, base + k as u32, sizes, Duration::from_millis(if stagger { 200 * k as u64 } else { 0 })));
         }
         let rs = futures_util::future::join_all(futs).await;
         drop(controls);
@@ -868,7 +1084,7 @@ impl World {
         let base = 0x0100_0000 + base;
         let wants_v6 = match c.first() {
             Some(1) => c.get(2).is_some_and(|v| v & 4 != 0) && matches!(c.get(1), Some(0 | 2 | 5)),
-            Some(2) => c.get(3) == Some(&4),
+            Some(2) => c.get(3).map(|v| v & 7) == Some(4),
             _ => false,
         };
         if wants_v6 && self.v6.is_none() {
@@ -876,6 +1092,7 @@ impl World {
         }
         match c.first() {
             Some(3) if c.len() == 4 => self.rt.block_on(slow_udp(self.slow_ctx(), c[1], c[2], c[3], base)),
+            Some(4) if c.len() == 3 => self.rt.block_on(burst_udp(self.slow_ctx(), c[1], c[2], base)),
             Some(1) if c.len() >= 4 => self.rt.block_on(self.tcp_case(&c[1..], base)),
             Some(2) if c.len() >= 5 => self.rt.block_on(self.udp_case(&c[1..], base)),
             _ => vec![999_999],
@@ -946,6 +1163,18 @@ pub fn generate(a: &Args, out: &mut Out) {
         emit(out, vec![1, 2, 1, 1, 1, 3, 2, 10, 600, 3, 6, 7, 1400, 1, 64]);
         emit(out, vec![1, 2, 1, 0, 2, 2, 4, 10, 600, 30, 8, 3, 6, 7, 1400]);
         emit(out, vec![1, 2, 1, 1, 3, 2, 4, 10, 600, 30, 8, 3, 6, 7, 1400]);
+        // the same with the clients starting one after the other
+        emit(out, vec![1, 2, 0, 0, 8, 3, 2, 10, 600, 3, 6, 7, 1400, 1, 64]);
+        emit(out, vec![1, 2, 1, 0, 8, 3, 2, 10, 600, 3, 6, 7, 1400, 1, 64]);
+        emit(out, vec![1, 2, 1, 1, 9, 3, 2, 10, 600, 3, 6, 7, 1400, 1, 64]);
+        // local clients that give up while their request is in flight, beside connections in progress (which must not notice)
+        for entry in [5u64, 2, 3, 0] {
+            emit(out, vec![1, 1, entry, 0, 5, 8, 2, 900, 41, 1, 700, 10, 0, 0, 10, 0, 0, 9, 1, 600, 2, 300, 5, 10, 0, 0]);
+            emit(out, vec![1, 1, entry, 0, 4, 2, 3, 150_000, 90_000, 7, 2, 120_000, 64_000, 10, 0, 0, 10, 0, 0, 10, 0, 0]);
+        }
+        emit(out, vec![1, 4, 0, 300]);
+        emit(out, vec![1, 4, 1, 300]);
+        emit(out, vec![1, 4, 0, 600]);
         if w.v6.is_some() {
             emit(out, vec![1, 2, 0, 0, 4, 2, 3, 10, 600, 1400, 2, 7, 64]);
             emit(out, vec![1, 2, 1, 1, 4, 2, 3, 10, 600, 1400, 2, 7, 64]);
@@ -962,6 +1191,9 @@ pub fn generate(a: &Args, out: &mut Out) {
             let mut c = vec![1, 1, entry, variant, nconn];
             for _ in 0..nconn {
                 let mut shape = rng.pick(&[0u64, 0, 1, 1, 2, 2, 2, 3, 4, 5, 6, 0, 1, 2, 3, 4, 7, 8, 8, 9, 9]);
+                if nconn > 1 && rng.chance(1, 6) {
+                    shape = 10;
+                }
                 if shape == 5 && entry == 1 {
                     shape = 2;
                 }
@@ -978,7 +1210,7 @@ pub fn generate(a: &Args, out: &mut Out) {
         } else {
             let entry = rng.below(2);
             let shared = rng.below(2);
-            let variant = if w.v6.is_some() && rng.chance(1, 5) { 4 } else if entry == 1 { rng.below(4) } else { rng.below(2) };
+            let variant = (if w.v6.is_some() && rng.chance(1, 5) { 4 } else if entry == 1 { rng.below(4) } else { rng.below(2) }) + if rng.chance(1, 3) { 8 } else { 0 };
             let ncl = 1 + rng.below(4);
             let mut c = vec![1, 2, entry, shared, variant, ncl];
             for _ in 0..ncl {
